@@ -1354,6 +1354,11 @@ def r5_11(ctx):
                 n += 1
                 old = f"{recv}.plain"
                 v = x.value
+                # temporaries: `plain = line.plain` read before the store, `k = len(prefix)` - closed form of the stored value
+                from ..astutil import inline as _inl511a, single_defs as _sdf511a
+                sd_a = _sdf511a(f.node)
+                keep_a = {k_ for k_, v_ in sd_a.items() if not (norm(v_) == old or (isinstance(v_, ast.Call) and norm(v_.func) == "len"))}
+                v = _inl511a(v, {k_: v_ for k_, v_ in sd_a.items() if k_ not in keep_a})
                 where = f"{m.relpath}:{x.lineno}"
 
                 def same_pos(e) -> str:
